@@ -177,6 +177,8 @@ type hrun struct {
 	ci     int
 	off    int
 	writes int
+	gate   int // offset of the harness's stream at which it waits for storrent's BT handshake before going on
+	gated  bool
 }
 
 func (h *hrun) drain() {
@@ -222,6 +224,16 @@ func (h *hrun) received() []byte {
 func (h *hrun) write(b []byte) error {
 	for len(b) > 0 {
 		n := len(b)
+		if h.gate > 0 && h.off == h.gate && !h.gated {
+			// a peer that keeps its id to itself until it has seen the other side's answer to the info-hash
+			h.gated = true
+			if !h.waitFor(func(r []byte) bool { return len(r) >= 68 }) {
+				return io.ErrClosedPipe
+			}
+		}
+		if h.gate > 0 && h.off < h.gate && h.off+n > h.gate {
+			n = h.gate - h.off
+		}
 		for h.ci < len(h.cuts) && h.cuts[h.ci] <= h.off {
 			h.ci++
 		}
@@ -247,14 +259,38 @@ func randBytes(rng *rand.Rand, n int) []byte {
 	return b
 }
 
+type eofConn struct {
+	net.Conn
+	total, got int
+}
+
+func (c *eofConn) Read(p []byte) (int, error) {
+	n, err := c.Conn.Read(p)
+	c.got += n
+	if err == nil && n > 0 && c.got >= c.total {
+		return n, io.EOF
+	}
+	return n, err
+}
+
 // runOne plays one logical exchange with one segmentation.  Must be called
 // inside a bubble.
-func runOne(e *exch, cuts []int) *result {
+func runOne(e *exch, cuts []int, eofWithData ...bool) *result {
+	gate := len(eofWithData) > 1 && eofWithData[1]
 	res := &result{}
 	rng := rand.New(rand.NewPCG(e.Salt, 0xC07))
 	t0 := time.Now()
-	sc, hc := net.Pipe() // storrent end, harness end
+	sc0, hc := net.Pipe() // storrent end, harness end
+	var sc net.Conn = sc0
+	if len(eofWithData) > 0 && eofWithData[0] {
+		// the transport reports the end of the stream together with its last bytes (a Read may return n > 0 and
+		// io.EOF at once; kernel TCP does not, wrapped and in-memory transports do)
+		sc = &eofConn{Conn: sc0, total: e.total()}
+	}
 	h := &hrun{conn: hc, cuts: cuts}
+	if gate {
+		h.gate = 48
+	}
 	h.cond = sync.NewCond(&h.mu)
 	opts := optSets[e.Opt].O
 
@@ -560,6 +596,8 @@ func errClass(s string) string {
 type seg struct {
 	Family string
 	Cuts   []int
+	EOF    bool // the last bytes of the stream and its end are reported by one Read
+	Gate   bool // plain handshake, storrent is the server: the peer sends its id only after it has read storrent's handshake
 }
 
 func judge(c *vk.C, e *exch, segs []seg) {
@@ -574,7 +612,7 @@ func judge(c *vk.C, e *exch, segs []seg) {
 			map[string]any{"cuts": []int{}, "storrent_error": base.Err, "steps": e.stepLens()})
 	}
 	for _, s := range segs {
-		g := runOne(e, s.Cuts)
+		g := runOne(e, s.Cuts, s.EOF, s.Gate)
 		account(c, e, s.Family, g)
 		class, detail := diff(e, g)
 		if trace {
@@ -1295,14 +1333,18 @@ func TestCheck(t *testing.T) {
 		c := r.Begin(i, d)
 		var segs []seg
 		if j.Family == "base" {
-			segs = append(segs, seg{"byte-at-a-time", bytewise(&e)})
+			segs = append(segs, seg{Family: "byte-at-a-time", Cuts: bytewise(&e)})
 			rng := r.Env.Rng(i)
 			for k := 0; k < 12; k++ {
-				segs = append(segs, seg{"prng-multicut", multicut(rng, &e)})
+				segs = append(segs, seg{Family: "prng-multicut", Cuts: multicut(rng, &e)})
+			}
+			segs = append(segs, seg{Family: "end-with-last-bytes", EOF: true}, seg{Family: "end-with-last-bytes", Cuts: multicut(rng, &e), EOF: true})
+			if e.Role == roleServer && e.Kind == kindPlain {
+				segs = append(segs, seg{Family: "id-after-reply", Gate: true}, seg{Family: "id-after-reply", Cuts: multicut(rng, &e), Gate: true})
 			}
 		} else {
 			for _, p := range j.Cuts {
-				segs = append(segs, seg{"single-cut", []int{p}})
+				segs = append(segs, seg{Family: "single-cut", Cuts: []int{p}})
 			}
 		}
 		bubble(t, func() { judge(c, &e, segs) })
@@ -1340,14 +1382,18 @@ func TestCheck(t *testing.T) {
 		c := r.Begin(i, map[string]any{"part": "prng", "exchange": &e})
 		var segs []seg
 		if e.Early <= 1000 && rng.IntN(3) == 0 {
-			segs = append(segs, seg{"byte-at-a-time", bytewise(&e)})
+			segs = append(segs, seg{Family: "byte-at-a-time", Cuts: bytewise(&e)})
 		}
 		for m := 0; m < 5; m++ {
-			segs = append(segs, seg{"prng-multicut", multicut(rng, &e)})
+			segs = append(segs, seg{Family: "prng-multicut", Cuts: multicut(rng, &e)})
 		}
 		sc := singleCuts(&e)
 		for m := 0; m < 3 && len(sc) > 0; m++ {
-			segs = append(segs, seg{"single-cut", []int{sc[rng.IntN(len(sc))]}})
+			segs = append(segs, seg{Family: "single-cut", Cuts: []int{sc[rng.IntN(len(sc))]}})
+		}
+		segs = append(segs, seg{Family: "end-with-last-bytes", Cuts: multicut(rng, &e), EOF: true})
+		if e.Role == roleServer && e.Kind == kindPlain {
+			segs = append(segs, seg{Family: "id-after-reply", Cuts: multicut(rng, &e), Gate: true})
 		}
 		bubble(t, func() { judge(c, &e, segs) })
 		c.FP(vk.Hash64("prng", e.Role, e.Kind, e.Opt, padClass(e.Pad1), padClass(e.Pad2), iaClass(e.IA), e.Early, e.Provide&3, e.Provide>>2 != 0, e.Select, e.Neg), e.Neg == "")
